@@ -176,7 +176,8 @@ RegistryRules(P, reg) ==
       dg == [k \in 1..Len(reg.groups) |-> DumpedGroup(reg.groups[k])]
       wg == [g \in 1..Len(P.groups) |-> WrittenGroup(P, g)]
       Count(q, v) == Cardinality({k \in DOMAIN q : q[k] = v})
-      SameItem(a, b) == a.meta.mp = b.meta.mp /\ a.meta.raw = b.meta.raw
+      \* (the internal raw_name may or may not carry the r# of a raw identifier: same identifier)
+      SameItem(a, b) == a.meta.mp = b.meta.mp /\ StripRaw(a.meta.raw) = StripRaw(b.meta.raw)
       \* what differs, for the report (only items that are not registered as written)
       Diag(w, d) ==
         Flag(d.meta.disp # w.meta.disp, "C12:display_name_differs_from_what_was_written")
